@@ -172,7 +172,7 @@ class Kinds:
           ks.add(self.param_kind(f, e.id))
         elif d.how == 'unpack' and d.index is not None and d.value is not None:
           el = self.tuple_elems(f, d.value, d.node, depth - 1)
-          if el is not None and d.index < len(el):
+          if el is not None and -len(el) <= d.index < len(el):
             ks.add(self.kind(el[d.index][0], el[d.index][1], None, depth - 1))
           else:
             ks.add(None)
@@ -188,6 +188,8 @@ class Kinds:
       return None
     if isinstance(e, ast.Tuple):
       return [(f, x) for x in e.elts]
+    if isinstance(e, ast.Call) and isinstance(e.func, ast.Name) and e.func.id in ('tuple', 'list') and len(e.args) == 1 and not e.keywords:
+      return self.tuple_elems(f, e.args[0], at, depth - 1)      # tuple(score): the same elements
     if isinstance(e, ast.Call):
       d = norm(e.func)
       v = f.module.assigns.get(d)
@@ -300,6 +302,11 @@ class Kinds:
               shapes.append(self.tuple_elems(g, s.value, FuncCtx.of(g).node_at(s), depth - 1))
     if len(shapes) == 1:
       return shapes[0]
+    if getattr(self, 'may', False):
+      # may-analysis (units): one visible construction is a possible value of the field, whatever the other stores put there
+      known = [x for x in shapes if x is not None]
+      if known and len({len(x) for x in known}) == 1:
+        return known[0]
     return None
 
   def _is_param_field(self, f, e, at):
